@@ -62,6 +62,10 @@ pub fn tier_mul(args: &Args) -> u32 {
 /// and the campaign is run again, so that one defect does not hide what lies behind it
 /// (at most `max_passes` passes). Statistics are counted per pass until the pass's first
 /// failure (the closure re-runs during shrinking); the pass that got furthest is reported.
+thread_local! {
+    static PROGRESS: std::cell::Cell<u64> = std::cell::Cell::new(0);
+}
+
 pub fn run_unit<C: Clone + std::fmt::Debug>(
     seed: u64,
     cases: u32,
@@ -96,6 +100,12 @@ pub fn run_unit<C: Clone + std::fmt::Debug>(
             let mut g = cell.borrow_mut();
             let counting = !g.1;
             let (stats, failed, ev) = &mut *g;
+            // progress line for the driver's watchdog (also during shrinking: with a defect that
+            // makes cases slow, e.g. a deadlock that is confirmed by sampling, silence is not a hang)
+            PROGRESS.with(|p| {
+                p.set(p.get() + 1);
+                announce_case(p.get());
+            });
             let fails: Vec<Fail> = ev(&case, stats, counting).into_iter().filter(|f| !muted.contains(&sig_key(&f.sig))).collect();
             if fails.is_empty() {
                 Ok(())
